@@ -88,8 +88,13 @@ def run(ctx, rep):
             break
         if isinstance(st, ast.Assign) and isinstance(st.value, ast.Call) and unparse(st.value.func).endswith("_atom_to_selfies"):
             tokvars |= {t.id for t in st.targets if isinstance(t, ast.Name)}
+        from rules.shared import emits_arg
+
+        def is_atom_token(e):
+            return (isinstance(e, ast.Name) and e.id in tokvars) or \
+                   (isinstance(e, ast.Call) and unparse(e.func).endswith("_atom_to_selfies"))
         for n in ast.walk(st):
-            if isinstance(n, ast.Call) and any(emits_name(ctx, frag, n, v) for v in tokvars):
+            if isinstance(n, ast.Call) and emits_arg(ctx, frag, n, is_atom_token):
                 ok = True
     rep.ob("K1", ok, loop, frag, construct="first action of the fragment printer", how="an atom token is appended unconditionally",
            witness=None if ok else "a fragment can be printed without any token (empty fragment -> '..' or leading '.')", key="nonempty-fragment")
